@@ -1,15 +1,20 @@
 """C08 -- angular separations equal the true great-circle angle (DESIGN.md section 7, C08).
 
-Two kinds of per-run obligations on the REAL esutil.coords.sphdist / gcirc:
-  * exact-rational checks (differential runner, Exec.v `v_props`, vm_compute over Q): every call
-    returns one finite value per pair, in [0,180] degrees, bit-identical when the two points are
-    swapped, exactly zero for identical inputs, bit-identical between scalar / length-1 /
-    length-n / list / broadcast calls, and within twice the tolerance when 360 degrees is added
-    (exactly) to a longitude;
-  * per-pair interval certificates (generated lemmas `sphdist_cert ...` / `gcirc_cert ...`): the
-    implementation's output is within the statement's tolerance (1e-11 degree chord-based,
-    2e-6 degree cosine-based) of the true great-circle angle of the exact binary64 inputs, hence
-    (theorems C08_*_code_exact) of the model as coded.
+Per-run obligations on the REAL esutil.coords.sphdist / gcirc of the tree under check:
+  * translation (c08_translate.py, fail-closed): constants -> Gen.v; the four functions statement by
+    statement -> Src.v (real-number reading; SrcProofs.v proves it equal to the model, hence to the true
+    angle) and SrcF.v (binary64 reading with libm oracles);
+  * model = implementation (differential runner, ExecF.v `v_full`): every call of <= 64 pairs is
+    reproduced BIT FOR BIT inside Coq by the binary64 reading of the source, with sin / cos / arcsin /
+    arccos taken from the values libm returned inside that very call;
+  * exact-rational property checks (Exec.v `props_check`, vm_compute over Q): every call returns one
+    finite value per pair, in [0,180] degrees, bit-identical when the two points are swapped, exactly
+    zero for identical inputs, bit-identical between scalar / length-1 / length-n / list / broadcast
+    calls, and within twice the tolerance when 360 degrees is added (exactly) to a longitude;
+  * per-pair interval certificates (generated lemmas `sphdist_src_cert ...` / `gcirc_src_cert ...`):
+    the implementation's output is within the statement's tolerance (1e-11 degree chord-based, 2e-6
+    degree cosine-based) of the true great-circle angle of the exact binary64 inputs, hence (theorem
+    C08_certificate_ties_source) of the real-number reading of its own source.
 """
 import math
 import os
@@ -107,7 +112,7 @@ def gen_pair(r, fam):
     elif fam == "poles":                      # both points at or near a pole
         def lat():
             s = r.choice([-1.0, 1.0])
-            return s * (90.0 - r.choice([0.0, 0.0, 10 ** r.uniform(-12, -1)]))
+            return s * (90.0 - r.choice([0.0, 10 ** r.uniform(-12, -1), 10 ** r.uniform(-9, -2)]))
         a = (r.uniform(0, 360), lat())
         b = (r.choice([a[0], r.uniform(0, 360)]), lat())
     elif fam == "seam":                       # longitudes straddling 0/360
@@ -530,14 +535,20 @@ def cert_pool(entries, ctx, budget):
                 byfam.setdefault((c["fn"], "shifted+360", c["uin"], c["uout"]), []).append(
                     {"fn": c["fn"], "uin": c["uin"], "uout": c["uout"], "pt": out["shifted_pts"][i],
                      "out": sh[1][i], "family": "shifted+360/" + c["family"]})
-    keys = sorted(byfam)
+    # round-robin over (function, family) groups, the families of the quantifier's adversarial list first, so that
+    # every prefix of the pool (the first batch always runs) is spread over all of them; units are mixed inside a group
+    prio = ["poles", "tiny", "antipodal", "large", "seam", "uniform", "same-direction", "shifted+360", "mixed", "equal"]
+    groups = {}
+    for k in sorted(byfam):
+        groups.setdefault((prio.index(k[1]) if k[1] in prio else len(prio), k[1], k[0]), []).extend(byfam[k])
+    keys = sorted(groups)
     for k in keys:
-        r.shuffle(byfam[k])
+        r.shuffle(groups[k])
     chosen, seen = list(fixed), set()
-    while len(chosen) < budget and any(byfam[k] for k in keys):
-        for k in keys:                               # round-robin over (function, family, units)
-            if byfam[k] and len(chosen) < budget:
-                it = byfam[k].pop()
+    while len(chosen) < budget and any(groups[k] for k in keys):
+        for k in keys:
+            if groups[k] and len(chosen) < budget:
+                it = groups[k].pop()
                 key = (it["fn"], it["uin"], it["uout"], tuple(it["pt"]))
                 if key not in seen:
                     seen.add(key)
@@ -670,7 +681,7 @@ def run(ctx, replay=None):
     while done < len(items):
         now = time.time()
         if done == 0:
-            n = min(len(items), ctx.n(64, 256))
+            n = min(len(items), ctx.n(72, 256))
         else:
             room = int((deadline - now) / ((now - t0) / done))
             if room < 16:
